@@ -54,7 +54,7 @@ func (x *c08X) viol(sig, detail string, trace map[string]any) {
 var c08NumRe = regexp.MustCompile(`0x[0-9a-fA-F]+|\d+`)
 
 // c08PanicClass turns a recovered value and its stack into a signature component without
-// per-run randomness: the message with numbers removed, and the innermost repository function.
+// per-run randomness: the message with numbers removed.
 func c08PanicClass(pv any, stack string) string {
 	msg := fmt.Sprint(pv)
 	if e, ok := pv.(error); ok {
@@ -64,22 +64,8 @@ func c08PanicClass(pv any, stack string) string {
 	if len(msg) > 80 {
 		msg = msg[:80]
 	}
-	fn := ""
-	for _, ln := range strings.Split(stack, "\n") {
-		if !strings.HasPrefix(ln, "github.com/refraction-networking/uquic/") {
-			continue
-		}
-		if strings.Contains(ln, "c08") || strings.Contains(ln, "C08") || strings.Contains(ln, "/fuzzing/") && fn != "" {
-			continue
-		}
-		name := strings.TrimPrefix(ln, "github.com/refraction-networking/uquic/")
-		if i := strings.LastIndex(name, "("); i > 0 {
-			name = name[:i]
-		}
-		fn = name
-		break
-	}
-	return msg + "@" + fn
+	_ = stack // the innermost repository function is in the trace; it is kept out of the signature (inlining changes it)
+	return msg
 }
 
 // c08FuzzClass is the signature component for a panic raised by one of the repository's fuzz
